@@ -17,7 +17,7 @@ from models import lin
 ID = "C13"
 ENGINE = "threadsim"
 LEVEL = "exploration"
-TIERS = {"quick": {"runs": 5000, "timeout": 900}, "thorough": {"runs": 150000, "timeout": 7200,
+TIERS = {"quick": {"runs": 30000, "timeout": 900}, "thorough": {"runs": 900000, "timeout": 7200,
                                                                "lane_timeout": 1500}}
 EST_STEPS = [80, 250, 700]
 P_OPCODE = 0.1
